@@ -11,7 +11,30 @@ def program_file(pid, named=True):
     return ct.mkfile("P%d" % pid, data, 2, 0, 0x0E00, 0x0E00)
 
 
+_EXACT = {}
+
+
+def exact_tape_files():
+    """files 160..163: four machine language files of arbitrary bytes whose tape is EXACTLY as long as a disk image (161,280 bytes) - a tape the disk reader is tried on first"""
+    if not _EXACT:
+        import random
+        rnd = random.Random(160)
+        files = [ct.mkfile("X%d" % i, [rnd.randrange(256) for _ in range(39000)], 2, 0, 0x1000 + i, 0x1000) for i in range(160, 164)]
+        for _ in range(2000):
+            d = ct.IMG - len(ct.write_tape(files))
+            if d == 0:
+                break
+            files[-1]["data"] = files[-1]["data"] + [rnd.randrange(256) for _ in range(d)] if d > 0 else files[-1]["data"][:d]
+        else:
+            raise RuntimeError("no tape of exactly %d bytes found" % ct.IMG)
+        for i, f in zip(range(160, 164), files):
+            _EXACT[i] = f
+    return _EXACT
+
+
 def stored_file(fid, big=False):
+    if 160 <= fid <= 163:
+        return exact_tape_files()[fid]
     if fid == 150:
         # a file whose DATA is itself a complete cassette recording (a disk holding it must still be taken for a disk)
         return ct.mkfile("F150", ct.write_tape([ct.mkfile("INNER", [1, 2, 3, 4, 5], 2, 0, 0x3000, 0x3000)]), 2, 0, 0x0E00, 0x0E10)
